@@ -24,6 +24,15 @@ generated Gallina against the Python code; see harness/props/C09.py):
   divmod, int(bool(x)), truthiness of ints/sequences in `if`
   f(x) mutating its argument -> returns the new argument value, rebound at the call site
   raise E(...)    -> Err E;   return None / value for Optional results -> option
+
+Value semantics and aliasing.  Sequences are translated BY VALUE.  That is sound only if no two live references to one
+mutable bytearray/list are used to observe each other's in-place updates.  The translator therefore REFUSES (fail closed):
+  * a class in which a field that receives a caller-owned sequence without copying (`self.f = param`, directly or in a
+    property setter) is also updated in place by any method (`self.f[i] = ...`, slice assignment, extend/append, or through
+    a local alias of the field);
+  * a method that hands a local sequence to a field / property (`self.f = x`, `self.obj.prop = x`) and mutates `x` in place
+    afterwards.
+The one aliasing pattern that is modelled is `x = self.f` followed by in-place stores through `x` (x is replaced by self.f).
 """
 import ast
 import importlib
@@ -100,6 +109,8 @@ class ClassInfo:
         self.props = props or {}                  # property name -> field name
         self.pyname, self.module, self.rec, self.prefix = pyname, module, rec, prefix
         self.fields = list(fields)            # [(name, ty)]
+        self.alias_fields = {}                # field -> where a caller-owned sequence is stored without copying
+        self.inplace_fields = {}              # field -> where it is updated in place
         self.ignore = set(ignore)
         self.pyobj = None
 
@@ -150,6 +161,9 @@ class Fn9(FnTranslator):
         self.fs = fs
         self.cls = fs.cls
         self.nwhile = 0
+        self.nest = 0
+        self.param_alias = set()
+        self.lent = {}
 
     # ------------------------------------------------------------ helpers
     def classref(self, node):
@@ -808,6 +822,8 @@ class Fn9(FnTranslator):
                 if [t for _, t in st.params] != [val.ty]:
                     raise Refuse('setter argument type')
                 onm0 = 'self_' + tgt.value.attr
+                if val.code.isidentifier() and val.code in env and is_seq(val.ty) and oc.props[tgt.attr] in oc.alias_fields:
+                    self.lent.setdefault(val.code, 'self.%s.%s (line %d)' % (tgt.value.attr, tgt.attr, tgt.lineno))
                 code0 = '%s %s%s %s' % (st.gname, 'Orc ' if st.oracle else '', onm0, val.code)
                 self.need_monad(val.binds, monadic, tgt)
                 if st.fallible:
@@ -825,6 +841,7 @@ class Fn9(FnTranslator):
         nm = self.target_name(tgt)
         if nm is None:
             return self.wrap(val.binds, cont(env), monadic) if val.binds else cont(env)
+        self.alias_note(tgt, nm, val, env)
         if isinstance(tgt, (ast.Name, ast.Attribute)):
             if isinstance(tgt, ast.Attribute):
                 want = self.cls.ftype(tgt.attr)
@@ -854,6 +871,31 @@ class Fn9(FnTranslator):
         self.need_monad([1], monadic, tgt)
         fn = 'py_store_b' if cty == 'bytes' else 'py_store'
         return self.wrap(val.binds + i.binds, '%s <- %s %s %s %s ;;\n%s' % (nm, fn, nm, i.code, val.code, cont(env)), monadic)
+
+    def alias_note(self, tgt, nm, val, env):
+        """book-keeping for the aliasing rules of the module docstring (raises Refuse on a violation)"""
+        bare = val is not None and val.code.isidentifier() and val.code in env and is_seq(val.ty)
+        line = getattr(tgt, 'lineno', 0)
+        if isinstance(tgt, ast.Name):
+            if self.nest == 0:
+                self.param_alias.discard(tgt.id)          # rebound at top level: no longer the caller's object
+                self.lent.pop(tgt.id, None)
+            return
+        if isinstance(tgt, ast.Attribute):
+            if bare and self.cls is not None and self.cls.ftype(tgt.attr) is not None:
+                if val.code in self.param_alias:
+                    self.cls.alias_fields.setdefault(tgt.attr, '%s line %d' % (self.fs.qual, line))
+                else:
+                    self.lent.setdefault(val.code, 'self.%s (line %d)' % (tgt.attr, line))
+            return
+        # subscript / slice store
+        base = tgt.value
+        if isinstance(base, ast.Name):
+            if base.id in self.lent:
+                raise Refuse('%s: `%s` was stored into %s without copying and is mutated in place afterwards (line %d): '
+                             'aliasing outside the translator\'s value semantics' % (self.fs.qual, base.id, self.lent[base.id], line))
+        elif isinstance(base, ast.Attribute) and self.cls is not None and self.cls.ftype(base.attr) is not None:
+            self.cls.inplace_fields.setdefault(base.attr, '%s line %d' % (self.fs.qual, line))
 
     def block(self, stmts, env, k, monadic):
         if not stmts:
@@ -1034,6 +1076,9 @@ class Fn9(FnTranslator):
                     raise Refuse('update() argument type')
                 self.need_monad(a.binds, monadic, s)
                 return self.wrap(a.binds, 'let %s := mac_update %s %s in\n%s' % (nm, nm, a.code, cont(env)), monadic)
+            if cty is not None and is_seq(cty) and f.attr in ('extend', 'append'):
+                fake = ast.copy_location(ast.Subscript(value=f.value, slice=ast.Constant(value=0), ctx=ast.Store()), s)
+                self.alias_note(fake, nm, None, env)
             if cty is not None and is_seq(cty) and f.attr == 'extend':
                 a = self.expr(c.args[0], env)
                 if a.ty == ('tup1', elt(cty)):
@@ -1103,6 +1148,14 @@ class Fn9(FnTranslator):
         return mod, env2
 
     def if_stmt(self, s, rest, env, k, monadic, cont):
+        # everything translated from here on may be inside a branch: treat as nested for the aliasing book-keeping
+        self.nest += 1
+        try:
+            return self.if_stmt0(s, rest, env, k, monadic, cont)
+        finally:
+            self.nest -= 1
+
+    def if_stmt0(self, s, rest, env, k, monadic, cont):
         c = self.truth(self.expr(s.test, env), s)
         self.need_monad(c.binds, monadic, s)
         tb, te = self.terminates(s.body), self.terminates(s.orelse)
@@ -1162,13 +1215,17 @@ class Fn9(FnTranslator):
     def loop_body(self, body, env_body, tup, monadic, s):
         save = self.fallible
         self.fallible = False
+        self.nest += 1
         try:
-            code = self.block(body, env_body, lambda e2: tup, False)
-            fallible = False
-        except NeedMonad:
-            fallible = True
-            self.need_monad([1], monadic, s)
-            code = self.block(body, env_body, lambda e2: 'Ok ' + tup, True)
+            try:
+                code = self.block(body, env_body, lambda e2: tup, False)
+                fallible = False
+            except NeedMonad:
+                fallible = True
+                self.need_monad([1], monadic, s)
+                code = self.block(body, env_body, lambda e2: 'Ok ' + tup, True)
+        finally:
+            self.nest -= 1
         self.fallible = save or fallible
         return code, fallible
 
@@ -1216,7 +1273,11 @@ class Fn9(FnTranslator):
         cpat = carried[0] if len(carried) == 1 else "'" + tup
         self.fallible = True
         self.need_monad([1], monadic, s)
-        body = self.block(s.body, dict(env), lambda e2: 'Ok ' + tup, True)
+        self.nest += 1
+        try:
+            body = self.block(s.body, dict(env), lambda e2: 'Ok ' + tup, True)
+        finally:
+            self.nest -= 1
         return '%s <- while_fuel (Z.to_nat %s) (fun %s => %s) (fun %s =>\n%s) %s ;;\n%s' % (
             cpat, fuel.code, cpat, c.code, cpat, body, tup, cont(env))
 
@@ -1275,15 +1336,18 @@ class Fn9(FnTranslator):
                 env['self_' + f] = t
                 prologue += 'let self_%s := (%s%s self) in\n' % (f, self.cls.prefix, f)
         body = self.fdef.body
+        seq_params = set(p_ for p_, t_ in self.fs.params if is_seq(t_))
         try:
             self.fallible = False
             self.tmp = 0
             self.nwhile = 0
+            self.nest, self.param_alias, self.lent = 0, set(seq_params), {}
             code = self.block(body, env, None, False)
             monadic = False
         except NeedMonad:
             self.tmp = 0
             self.nwhile = 0
+            self.nest, self.param_alias, self.lent = 0, set(seq_params), {}
             code = self.block(body, env, None, True)
             monadic = True
         return prologue + code, monadic
@@ -1474,4 +1538,10 @@ class Module9:
             out.append('(* %s:%d %s%s *)' % (relpath, fd.lineno, fs.qual,
                                              (' defaults=%r' % fs.defaults) if fs.defaults else ''))
             out.append('Definition %s %s : %s :=\n%s.\n' % (fs.gname, params, rty, indent(code)))
+        for ci in self.classes.values():
+            both = sorted(set(ci.alias_fields) & set(ci.inplace_fields))
+            if both:
+                f = both[0]
+                raise Refuse('class %s: field %s holds a caller-owned sequence stored without copying (%s) and is updated in place (%s): '
+                             'aliasing outside the translator\'s value semantics' % (ci.pyname, f, ci.alias_fields[f], ci.inplace_fields[f]))
         return '\n'.join(out)
